@@ -298,6 +298,7 @@ def pureQuery : List String → Option String
     | some d => some (hexOfBytes d)
     | none => some "panic"
   | ["ethmsg", digest] => some (hexOfBytes (ethSignedMessage (hexToBytes digest)))
+  | ["world", _] => some "ok"   -- a note to the monitors (how the external chains behave); no state
   | _ => none
 
 /-- `ExportGenesis` followed by `InitGenesis` on a fresh instance (x/mhub2/keeper/genesis.go,
